@@ -25,13 +25,12 @@ type Packet struct {
 
 type waiter struct {
 	mu   sync.Mutex
+	once sync.Once
 	cond *sync.Cond
 }
 
 func (w *waiter) init() {
-	if w.cond == nil {
-		w.cond = sync.NewCond(&w.mu)
-	}
+	w.once.Do(func() { w.cond = sync.NewCond(&w.mu) })
 }
 
 // wait blocks until pred() holds. mu must be held by the caller in pass-through mode.
